@@ -135,6 +135,7 @@ type c20Config struct {
 	buffer     int  // WriteBufferSize: 0 = every merge into the disk layer is flushed
 	journalFS  bool // journal in a file (on vos) instead of the key-value store
 	diffLayers int  // maxDiffLayers
+	history    uint64 // StateHistory limit (0: keep everything)
 }
 
 const (
@@ -160,7 +161,7 @@ func c20IsMeta(rel string) bool { return strings.HasSuffix(rel, ".meta") }
 
 func (c c20Config) pathdbConfig(fs *vos.FS) *Config {
 	cfg := &Config{
-		StateHistory:      0, // keep all state histories
+		StateHistory:      c.history, // 0: keep all state histories
 		TrienodeHistory:   -1,
 		TrieCleanSize:     0,
 		StateCleanSize:    0,
@@ -476,8 +477,16 @@ func c20Recover(kvImg *memorydb.Database, fsImg *vos.FS, cfg c20Config, ctx *c20
 	if sh != bottom.stateID() {
 		return "", fmt.Errorf("state history head %d is not aligned with the disk layer state id %d", sh, bottom.stateID())
 	}
-	if pid := rawdb.ReadPersistentStateID(kvImg); pid > bottom.stateID() {
+	pid := rawdb.ReadPersistentStateID(kvImg)
+	if pid > bottom.stateID() {
 		return "", fmt.Errorf("persistent state id %d above the disk layer state id %d", pid, bottom.stateID())
+	}
+	stail, err := db.stateFreezer.Tail(rawdb.DefaultHistoryGroup)
+	if err != nil {
+		return "", fmt.Errorf("state freezer tail: %v", err)
+	}
+	if !(stail <= pid && pid <= sh) {
+		return "", fmt.Errorf("state history window (tail %d, head %d] does not enclose the persisted state id %d", stail, sh, pid)
 	}
 	// acknowledgements
 	if ctx.mustDiskRoot != (common.Hash{}) && R != ctx.mustDiskRoot {
@@ -488,7 +497,10 @@ func c20Recover(kvImg *memorydb.Database, fsImg *vos.FS, cfg c20Config, ctx *c20
 	}
 	outcome := fmt.Sprintf("disk_id=%d,layers=%d", bottom.stateID(), layers)
 	// rollback from the recovered disk state still works
-	if R != types.EmptyRootHash {
+	if R != types.EmptyRootHash && bottom.stateID() <= stail {
+		outcome += ",rollback_outside_retained_window"
+	}
+	if R != types.EmptyRootHash && bottom.stateID() > stail {
 		target := m.parent[R]
 		if !db.Recoverable(target) {
 			why := ""
@@ -656,6 +668,31 @@ func c20Diagnose(img *vos.FS) string {
 		tags = append(tags, "virtual-tail-beyond-flushed-items")
 	}
 	return strings.Join(tags, ",")
+}
+
+// c20TailBeyondPersisted reports whether a state-history table of the image has a tail
+// (virtual tail in the metadata or items physically removed) above the persisted state id
+// of the key-value image. It is only used as a precondition when the KV image lost entries.
+func c20TailBeyondPersisted(kvImg ethdb.KeyValueReader, img *vos.FS) bool {
+	pid := rawdb.ReadPersistentStateID(kvImg)
+	files := img.Files()
+	for name, idx := range files {
+		if !strings.HasPrefix(name, "anc/state/") || !(strings.HasSuffix(name, ".cidx") || strings.HasSuffix(name, ".ridx")) {
+			continue
+		}
+		if len(idx) >= 6 && uint64(binary.BigEndian.Uint32(idx[2:6])) > pid {
+			return true
+		}
+		var o struct {
+			Version uint16
+			Tail    uint64
+			Offset  uint64
+		}
+		if meta := files[name[:len(name)-5]+".meta"]; len(meta) > 0 && rlp.Decode(bytes.NewReader(meta), &o) == nil && o.Tail > pid {
+			return true
+		}
+	}
+	return false
 }
 
 // c20StaleJournal reports whether the crash image holds a journal (KV entry or file) whose
@@ -849,6 +886,12 @@ func c20Explore(r *mc.R, cfg c20Config, ops []int, p c20Params, seen *sync.Map, 
 					r.Case(cs, func() error {
 						tag := c20Diagnose(img)
 						kvImg := s.kv.Image(keep)
+						if keep < kvK && c20TailBeyondPersisted(kvImg, img) {
+							if tag != "" {
+								tag += ","
+							}
+							tag += "kv-tail-lost-below-durable-history-tail"
+						}
 						if c20StaleJournal(kvImg, img, cfg, model) {
 							if tag != "" {
 								tag += ","
@@ -935,7 +978,7 @@ func TestVerif_C20(t *testing.T) {
 			p.allKV = true
 		}
 		r.Rule("every executable history of <= depth operations over {Update (fixed deterministic account transition over 3 accounts), Commit(head), Recover(parent of the disk root), Journal(head)+clean restart} " +
-			"on pathdb over rawdb.Open(recording KV, state freezer + journal on the recording FS), maxDiffLayers=1, write buffer {0, 1 MiB} x journal {KV, file}; every crash point of the merged KV/FS order inside the last operation x " +
+			"on pathdb over rawdb.Open(recording KV, state freezer + journal on the recording FS), maxDiffLayers=1, write buffer {0, 1 MiB} x journal {KV, file}, unlimited state history; plus a linear family update^k with Commit at a few positions for state-history limits {2,3} x write buffer {0, 1 MiB}; every crash point of the merged KV/FS order inside the last operation x " +
 			"durable KV prefix (all, only synced, operation boundaries, every position inside the last operation; thorough: every prefix) x FS loss (all kept / all unsynced lost x namespace prefixes; thorough: one deviating file); " +
 			"distinct = distinct (history, KV image, FS image)")
 		r.Bound("depth", depth)
@@ -945,10 +988,18 @@ func TestVerif_C20(t *testing.T) {
 		r.Assume("log.Crit is observed as a panic (log package's os.Exit routed through vos.Exit)")
 		r.Assume("reference model: root -> account set and root -> parent root for every state produced by the history; trie root/leaf encoding taken from the trie package")
 		configs := []c20Config{
-			{"buf0-kvjournal", 0, false, 1},
-			{"buf1M-kvjournal", 1 << 20, false, 1},
-			{"buf0-filejournal", 0, true, 1},
-			{"buf1M-filejournal", 1 << 20, true, 1},
+			{"buf0-kvjournal", 0, false, 1, 0},
+			{"buf1M-kvjournal", 1 << 20, false, 1, 0},
+			{"buf0-filejournal", 0, true, 1, 0},
+			{"buf1M-filejournal", 1 << 20, true, 1, 0},
+		}
+		// finite state-history limits: tail truncation of the state freezer in writeHistory, with
+		// the transitions either flushed at once (buffer 0) or kept in the 1 MiB write buffer
+		limited := []c20Config{
+			{"lim2-buf1M-kvjournal", 1 << 20, false, 1, 2},
+			{"lim3-buf1M-kvjournal", 1 << 20, false, 1, 3},
+			{"lim2-buf0-kvjournal", 0, false, 1, 2},
+			{"lim3-buf0-kvjournal", 0, false, 1, 3},
 		}
 		alphabet := []int{c20OpUpdate, c20OpCommit, c20OpRecover, c20OpJournal}
 		type job struct {
@@ -974,6 +1025,32 @@ func TestVerif_C20(t *testing.T) {
 		}
 		for _, cfg := range configs {
 			gen(cfg, nil)
+		}
+		// the linear family for the limited configurations: update^k with Commit(head) at up to
+		// maxCommits positions (never two in a row), length <= linDepth; thorough also ends the
+		// history with Recover or Journal+restart
+		linDepth := mc.Pick(r, 7, 8)
+		maxCommits := mc.Pick(r, 2, 3)
+		r.Bound("linear_family", fmt.Sprintf("state-history limit {2,3} x buffer {0, 1 MiB}: update^k with <= %d commits, length <= %d", maxCommits, linDepth))
+		var lin func(cfg c20Config, seq []int, commits int)
+		lin = func(cfg c20Config, seq []int, commits int) {
+			if len(seq) > 0 {
+				jobs = append(jobs, job{cfg, append([]int{}, seq...)})
+				if r.Thorough() && len(seq) < linDepth {
+					jobs = append(jobs, job{cfg, append(append([]int{}, seq...), c20OpRecover)})
+					jobs = append(jobs, job{cfg, append(append([]int{}, seq...), c20OpJournal)})
+				}
+			}
+			if len(seq) == linDepth {
+				return
+			}
+			lin(cfg, append(seq, c20OpUpdate), commits)
+			if len(seq) > 0 && seq[len(seq)-1] == c20OpUpdate && commits < maxCommits {
+				lin(cfg, append(seq, c20OpCommit), commits+1)
+			}
+		}
+		for _, cfg := range limited {
+			lin(cfg, nil, 0)
 		}
 		sort.SliceStable(jobs, func(i, j int) bool { return len(jobs[i].ops) > len(jobs[j].ops) })
 		tgt := c20ReplayTarget()
